@@ -133,11 +133,25 @@ def classify(unit, js, diags, rc):
                     callee = "%s#%s" % (f2, c2[3])
                 else:
                     callee = (sec[0].get("text") or [{}])[0].get("text", "").strip()
-            label = "safety"
+            label = "safety:precondition"
             detail = "precondition of callee not established: " + callee
         else:
             fid = unit.fn_at(pl)
-            label = "safety"
+            line_txt = (prim[0].get("text") or [{}])[0].get("text", "")
+            import re as _re
+            mk = _re.search(r"/\*@AS:(.*?)\*/", line_txt)
+            if mk:
+                label = mk.group(1)            # a named assertion spliced in by the spec
+            elif "assertion failed" in low:
+                label = "safety:assert"
+            elif "invariant" in low:
+                label = "safety:invariant"
+            elif "overflow" in low or "underflow" in low or "division" in low or "shift" in low:
+                label = "safety:arithmetic"
+            elif "decreases" in low or "termination" in low:
+                label = "safety:termination"
+            else:
+                label = "safety"
             detail = msg
         if fid is None:
             # error located in prelude / raw text: treat as undecided (machinery problem)
